@@ -123,7 +123,7 @@ theorem render_single_raw (reg : Registry) (root : Json) (name : Option Str) (s 
   have hf : renderFuel = (renderFuel - 3 + 1) + 2 := by decide
   unfold runRM
   rw [hf]
-  simp only [renderTemplate, renderElems, RM.bind_def, RM.bnd_apply, RM.get_apply, RM.modify_apply, RM.mapErr,
+  simp only [renderTemplate, renderElems, RM.bind_def, RM.bnd_apply, RM.get_apply, RM.modify_apply, RM.modifyAux_apply, RM.mapErr,
     Tmpl.name, Tmpl.elements, Tmpl.mapping, h, List.drop, RM.pure_def, RM.ret_apply]
   cases name <;> simp [Out.text]
 
@@ -132,7 +132,7 @@ theorem render_empty_template (reg : Registry) (root : Json) (name : Option Str)
   have hf : renderFuel = (renderFuel - 2) + 2 := by decide
   unfold runRM
   rw [hf]
-  simp only [renderTemplate, renderElems, RM.bind_def, RM.bnd_apply, RM.get_apply, RM.modify_apply,
+  simp only [renderTemplate, renderElems, RM.bind_def, RM.bnd_apply, RM.get_apply, RM.modify_apply, RM.modifyAux_apply,
     Tmpl.name, Tmpl.elements, Tmpl.mapping, RM.pure_def, RM.ret_apply]
   cases name <;> simp [Out.text]
 
